@@ -53,8 +53,8 @@ CLAIMS["C01"] = dict(
 CLAIMS["C02"] = dict(
     text="partial, compositional: (i) Contour::initialize_from_context implements the four parent cases of the paper on every forest of 3 contours and every lower edge, exactly the parent gains the hole id; "
          "(ii) the transition recorded on plain and shared edges (which decides hole vs exterior) is the geometric truth for the complete flag space, and prev_in_result skips vertical/non-result edges; "
-         "(iii) precompute_iteration_order never leaves a vertex group; (iv) sweep-path assembly in mod.rs (thorough tier, memory permitting).",
-    design_ref="DESIGN.md 4 C02", note=ORI + GLUE + "That the recorded lower result edge is geometrically the nearest one, and merging of touching pieces by the walk, are outside.", technique=TECH)
+         "(iii) precompute_iteration_order never leaves a vertex group.",
+    design_ref="DESIGN.md 4 C02", note=ORI + GLUE + "That the recorded lower result edge is geometrically the nearest one, merging of touching pieces by the walk, and the assembly of polygons from the contour forest in mod.rs (harness runs out of memory, DESIGN 10.5) are outside.", technique=TECH)
 CLAIMS["C03"] = dict(
     text="partial: panic-freedom of units under their preconditions (every harness carries Kani's index/unwrap/overflow/RefCell-borrow/debug_assert/unwinding checks) plus targeted obligations: "
          "initialize_from_context with an unassigned lower contour id (KNOWN-FINDING KF3), divide_segment: both pieces non-degenerate and all new events in the future of the sweep (progress), one-ulp lattice (KNOWN-FINDING KF4), empty operands never reach the sweep.",
@@ -81,8 +81,8 @@ CLAIMS["C13"] = dict(
     design_ref="DESIGN.md 4 C13", note=ORI + GLUE + "That checking neighbours only suffices for planarity is a paper step; the Overlap templates need ~40 GB each and only two run in the quick tier; the sweep-protocol harness replaces BinaryHeap::pop, SplaySet and the three callees by models (listed in the evidence).", technique=TECH)
 CLAIMS["C15"] = dict(
     text="both public orders decided on all pairs of lattice segments: SweepEvent::cmp (any endpoint events, f64 quick / f32 thorough) never Equal, antisymmetric, equal to the reference order (x, y, right-before-left, lower segment first, subject first); "
-         "compare_segments Equal iff identical, antisymmetric, equal to the vertical order of non-crossing pairs where separated; thorough: transitivity on triples, order_events on 4 events, larger windows.",
-    design_ref="DESIGN.md 4 C15", note=ORI + "Precondition = validity of co-occurring events: two edges of one operand never overlap. Bounds: N = 4 (event pairs), 3 (segment pairs, quick) lattice window; pairs and triples only.", technique=TECH)
+         "compare_segments Equal iff identical, equal to the vertical order of non-crossing pairs where separated (quick: every ordered pair against the antisymmetric reference; thorough: both argument orders in one query, 4x4 window, f64), subject below for coincident edges; thorough: transitivity of the event order on triples, f32 twins.",
+    design_ref="DESIGN.md 4 C15", note=ORI + "Precondition = validity of co-occurring events: two edges of one operand never overlap; no claim for two non-overlapping vertical edges on one abscissa (never in the sweep line together). Bounds: 4x4 (event pairs), 3x3 (segment pairs, quick) lattice window; pairs and triples only; the bubble sort of order_events is outside (harness runs out of memory).", technique=TECH)
 CLAIMS["C16"] = dict(
     text="intersection(): None/Point/Overlap exactly as the integer reference on all lattice segment pairs, containment, tolerance, endpoint reuse, argument-order independence; possible_intersection arm by arm (None, Point, Overlap templates); "
          "divide_segment contract incl. the one-ulp lattice where the documented bump is live (KNOWN-FINDING KF4: the two segments get different points).",
@@ -90,7 +90,7 @@ CLAIMS["C16"] = dict(
 CLAIMS["C17"] = dict(
     text="the splay map against a sorted-array reference: one harness per update sequence (quick: all queries after insert-insert and insert-remove; thorough: up to four updates), ALL keys (< 4) and values symbolic, so every key order/duplicate/absent key and every tree shape reachable by the sequence is covered: "
          "get/contains/next/prev/min/max/len, BST shape, consuming iteration in mixed directions, and reference stability of lookup results across further lookups.",
-    design_ref="DESIGN.md 4 C17", note="Bound: <= 2 updates (quick) / <= 4 updates (thorough), key universe of 4; long histories and larger trees are outside. clear/extend/get_mut/Index are thorough-tier or outside (see DESIGN).", technique=TECH)
+    design_ref="DESIGN.md 4 C17", note="Bound: <= 2 updates (quick) / <= 4 updates (thorough) from the empty tree, one operation from every 3-node tree, key universe of 4; long histories and larger trees are outside.", technique=TECH)
 
 _PENDING = "check not built yet in this session (planned, see DESIGN.md 4)"
 NOT_APPLICABLE = {
